@@ -3,7 +3,7 @@
 import os, json, glob, re
 ROOT = os.path.join(os.path.dirname(os.path.abspath(__file__)), '..', 'seeded')
 rows = []
-for d in sorted(glob.glob(os.path.join(ROOT, '*_seed*'))):
+for d in sorted(glob.glob(os.path.join(ROOT, '*seed*'))):
     name = os.path.basename(d)
     meta = json.load(open(os.path.join(d, 'meta.json')))
     notes = ''
@@ -21,7 +21,8 @@ for d in sorted(glob.glob(os.path.join(ROOT, '*_seed*'))):
         nf = 'no-failing-input-found' in t
         if m:
             verdict = 'MISSED' if m.group(3) == '0' else ('caught (%s%s)' % (kind.group(1) if kind else 'violation', ', no failing input' if nf else ''))
-            res.append('%s: %s' % (m.group(1), verdict))
+            tag = 'first run (blind): ' if 'blind_first_run' in r else ('after strengthening: ' if os.path.exists(r.replace('.txt', '_blind_first_run.txt')) else '')
+            res.append('%s%s %s' % (tag, m.group(1), verdict))
     rows.append((name, meta['property'], meta.get('mode', 'blind'), '; '.join(res) or 'not yet run', first))
 with open(os.path.join(ROOT, 'MATRIX.md'), 'w') as f:
     f.write('# Seeded changes and which checks catch them\n\nEach seed was written by an independent sub-agent that saw only the property text and a scratch worktree; '
